@@ -732,12 +732,17 @@ func parseBinOps(expr string, n *promParser.BinaryExpr) (src []Source) {
 				}
 				if ls.AlwaysReturns && rs.AlwaysReturns && ls.KnownReturn && rs.KnownReturn {
 					// Both sides always return something
-					side.ReturnedNumber, side.IsDead, side.IsDeadReason, side.IsDeadPosition = calculateStaticReturn(
+					var number float64
+					number, side.IsDead, side.IsDeadReason, side.IsDeadPosition = calculateStaticReturn(
 						expr,
 						ls, rs,
 						n.Op,
 						ls.IsDead,
 					)
+					// Comparison only filters results, the value returned is the one from the vector side.
+					if !n.Op.IsComparisonOperator() {
+						side.ReturnedNumber = number
+					}
 				}
 				src = append(src, side)
 			}
